@@ -119,7 +119,7 @@ class ClientInit(Suite):
                     if a["k"] == "version" and k % 5 == 0:
                         a["extra"] = True
                     c = {"sup": sup, "pref": pref, "ans": a, "D": 2048,
-                         "at": (1, 10, 512, 700)[k % 4], "tie": ("events", "timers")[(k // 4) % 2],
+                         "at": (1, 10, 512, 700)[k % 4], "tie": ("events", "timers", "io")[(k // 4) % 3],
                          "track": k % 2 == 0}
                     if sup is None and ans["k"] in ("silence", "version") and pref in (None, "2024-11-05"):
                         c["D"] = None  # the default 60 s timeout: free under virtual time
@@ -293,11 +293,11 @@ class SlowWriter(ClientInit):
                         for take in takes:
                             k += 1
                             c = {"sup": sup, "pref": pref, "ans": dict(ans), "D": T, "at": (1, 10, 100)[k % 3],
-                                 "tie": ("events", "timers")[(k // 3) % 2], "track": k % 2 == 0, "take": take}
+                                 "tie": ("events", "timers", "io")[(k // 3) % 3], "track": k % 2 == 0, "take": take}
                             c.update(side)
                             out.append(c)
                             if ans["k"] == "version" and ans["s"] in eff and take in (T, T + 1, None):
-                                out.append(dict(c, tie=("timers", "events")[(k // 3) % 2], track=not c["track"]))
+                                out.append(dict(c, tie=("timers", "io", "events")[(k // 3) % 3], track=not c["track"]))
         ctx.exhaustive_parts.append(
             "slow-writer: write stream buffer 0 / 1+foreign message / 1 empty x peer taking the notification 1, T-1, T, T+1, 2T ticks "
             "after its answer or never x both orders at equal instants")
